@@ -164,11 +164,76 @@ def run_guard(g, rep, rng, release=False):
 
 # ------------------------------------------------------------------------------------- C01
 
+F32_INF_K = 0x7f800000
+
+
+def f32_key(bits):
+    return -(bits & 0x7fffffff) if bits & 0x80000000 else bits
+
+
+def f32_sweep(g, rep):
+    """thorough tier: every f32 bit pattern through the real constructor of every eligible
+    declaration (bounds / finite only, no sanitizer); the summary is compared with the count
+    computed analytically from the INTENDED bounds"""
+    g2 = flows.GuardRun(g.ws.name, g.decls)
+    g2.ws, g2.live = g.ws, g.live
+    elig = []
+    for d in g.decls:
+        if d.id not in g.live or d.inner != "f32" or not hasattr(d, "bounds"):
+            continue
+        info = runner.DeclInfo(d)
+        if info.custom or not info.has_validation or runner.find_block(d.toks, "sanitize") or "predicate" in info.vkinds:
+            continue
+        elig.append(d)
+        g2.add_ops(d, [("sweep_f32", "")])
+    g2.run_impl()
+    n = 0
+    for d in elig:
+        c = g2.by_decl[d.id][0]
+        info = runner.DeclInfo(d)
+        if not c.impl or not c.impl.startswith("sweep "):
+            rep.violation("f32 sweep failed on %s: %s" % (d.id, c.impl), case_payload(c, g2), no_input=True)
+            continue
+        kv = dict(x.split("=", 1) for x in c.impl.split()[1:])
+        ka, kb = -F32_INF_K, F32_INF_K
+        bi = 0
+        for k_ in info.vkinds:
+            if k_ == "finite":
+                ka, kb = max(ka, -F32_INF_K + 1), min(kb, F32_INF_K - 1)
+                continue
+            b = d.bounds[bi]
+            bi += 1
+            if is_nan_bits(b, False):
+                continue            # comparisons with a NaN bound never fire
+            kk = f32_key(b)
+            if k_ == "greater":
+                ka = max(ka, kk + 1)
+            elif k_ == "greater_or_equal":
+                ka = max(ka, kk)
+            elif k_ == "less":
+                kb = min(kb, kk - 1)
+            elif k_ == "less_or_equal":
+                kb = min(kb, kk)
+        cnt = max(0, kb - ka + 1) + (1 if ka <= 0 <= kb else 0)
+        nan_ok = 0 if "finite" in info.vkinds else 2 * ((1 << 23) - 1)
+        exp = {"ok": cnt + nan_ok, "nan_ok": nan_ok, "changed": 0}
+        got = {"ok": int(kv["ok"]), "nan_ok": int(kv["nan_ok"]), "changed": int(kv["changed"])}
+        if cnt:
+            exp.update({"kmin": ka, "kmax": kb})
+            got.update({"kmin": int(kv["kmin"]), "kmax": int(kv["kmax"])})
+        n += 1
+        if got != exp:
+            rep.violation("over all 2^32 f32 bit patterns %s accepts %s but its written rules admit %s" % (d.id, got, exp),
+                          case_payload(c, g2, {"sweep": c.impl, "expected": exp}), no_input=False)
+    rep.coverage["f32_full_sweeps"] = n
+    rep.coverage["f32_patterns_swept"] = n * (1 << 32)
+
+
 def c01(tier, rng, rep, only=None):
     g = make_guard_run(tier, rng, decls=only)
     dropped = run_guard(g, rep, rng)
-    if tier == "thorough":
-        pass
+    if tier == "thorough" and only is None:
+        f32_sweep(g, rep)
     n_cases = n_ok = n_err = n_nontrivial = 0
     classes = {}
     seen_out = set()
